@@ -266,20 +266,27 @@ func (v *vc) intrinsic(fr *frame, st *state, instr ssa.Instruction, name string,
 		return true
 	case "encoding/binary.Read":
 		trust()
+		var readVal string
+		var readTyp types.Type
 		if mi, ok := c.Args[2].(*ssa.MakeInterface); ok {
 			if a := v.addrOf(fr, st, mi.X); a != nil {
 				nv := v.havoc("binread", a.typ, st)
-				yes := st.clone()
-				v.store(yes, a, nv)
-				// data is written only when err == nil (on error contents are unspecified: havoc either way)
-				*st = *yes
+				// on error the contents are unspecified: havoc either way
+				v.store(st, a, nv)
+				readVal, readTyp = nv, a.typ
 			} else {
 				v.havocAll(st)
 			}
 		} else {
 			v.havocAll(st)
 		}
-		set(v.havocResults(st, sig, "binread")...)
+		rs := v.havocResults(st, sig, "binread")
+		if p, ok := c.Args[0].(*ssa.Parameter); ok && readVal != "" && fr.top {
+			if bits, signed, ok := intInfo(readTyp); ok {
+				v.readOps = append(v.readOps, readOp{param: p.Name(), reach: st.reach, kind: "binread", term: readVal, bits: bits, signed: signed, errT: rs[0], pos: len(v.items)})
+			}
+		}
+		set(rs...)
 		return true
 	case "encoding/binary.Write":
 		trust()
@@ -297,6 +304,9 @@ func (v *vc) intrinsic(fr *frame, st *state, instr ssa.Instruction, name string,
 		v.setHeap(st, h, sort, sto(A, fmt.Sprintf("(s_arr %s)", buf), row))
 		rs := v.havocResults(st, sig, "readfull")
 		v.fact(st, fmt.Sprintf("(and (<= 0 %s) (<= %s (s_len %s)) (=> (= %s nil_iface) (= %s (s_len %s))))", rs[0], rs[0], buf, rs[1], rs[0], buf))
+		if p, ok := c.Args[0].(*ssa.Parameter); ok && fr.top {
+			v.readOps = append(v.readOps, readOp{param: p.Name(), reach: st.reach, kind: "readfull", term: rs[0], errT: "", pos: len(v.items)})
+		}
 		set(rs...)
 		return true
 	case "(encoding/binary.bigEndian).Uint64", "(encoding/binary.bigEndian).Uint32", "(encoding/binary.bigEndian).Uint16",
